@@ -25,7 +25,7 @@ THEORY = "C08"
 KEYS = ("c08", "c07")
 
 
-def scenario_block(s, seed, how):
+def scenario_block(s, seed, how, lines=False):
     import random
     import threading as real_threading
     import qmi.core.context as C
@@ -67,6 +67,8 @@ def scenario_block(s, seed, how):
                 break
 
     ths = [real_threading.Thread(target=subscriber, args=(i,), name="sub%d" % i) for i in range(2)]
+    if lines:
+        c07.line_yields(P)
     s.recording = True
     for t in ths:
         t.start()
@@ -159,22 +161,22 @@ def run(ck):
             if fn.endswith(".json"):
                 with open(os.path.join(cdir, fn)) as f:
                     c = json.load(f)
-                jobs.append((scenario_block, (c["seed"], c["how"]), dict(strategy="replay", schedule=list(c["schedule"]))))
+                jobs.append((scenario_block, (c["seed"], c["how"], bool(c.get("lines"))), dict(strategy="replay", schedule=list(c["schedule"]))))
                 ck.count("corpus")
     for i in range(nsched):
         how = ["disconnect", "server_stop", "remove"][i % 3]
-        jobs.append((scenario_block, (ck.rng.randint(0, 10 ** 6), how), dict(strategy="random" if i % 2 else "pct", seed=i)))
+        jobs.append((scenario_block, (ck.rng.randint(0, 10 ** 6), how, i % 3 == 0), dict(strategy="random" if i % 2 else "pct", seed=i)))
     results = dsched.run_forked(jobs, nproc=16, wall_timeout=60.0)
     for (fn, args, kw), res in zip(jobs, results):
         ck.note_case(("block", args, kw.get("seed"), tuple(res.get("choices") or ())[:50]), True)
-        ck.count("block:%s:%s" % (args[1], res["status"]))
+        ck.count("block:%s%s:%s" % (args[1], "+lines" if args[2] else "", res["status"]))
         if res["status"] == "ok":
             for i, r in res["obs"]["results"]:
                 ck.count("block:result:" + r)
         bad = block_oracle(res)
         if bad:
             ck.report("oracle:c08:threads:%s:%s" % (args[1], bad[0]), "C08 fails on real contexts (%s): %s" % (args[1], bad[1]),
-                      {"kind": "block", "seed": args[0], "how": args[1], "schedule": res.get("choices"),
+                      {"kind": "block", "seed": args[0], "how": args[1], "lines": args[2], "schedule": res.get("choices"),
                        "obs": res.get("obs")})
     return ck.finish("exhaustive op sequences (12-letter alphabet, 3 prefixes) + seeded random histories on 1-3 contexts, probes at "
                      "quiescent points + random schedules of a blocked subscriber with the peer vanishing; non-trivial = at least "
@@ -185,7 +187,7 @@ def replay(rep):
     c = rep["case"]
     if c.get("kind") == "block":
         import qmi.core.context, qmi.core.rpc, qmi.core.pubsub, qmi.core.messaging, qmi.core.task  # noqa
-        res = dsched.run_forked([(scenario_block, (c["seed"], c["how"]),
+        res = dsched.run_forked([(scenario_block, (c["seed"], c["how"], bool(c.get("lines"))),
                                   dict(strategy="replay", schedule=list(c["schedule"] or [])))], nproc=1, wall_timeout=60.0)[0]
         print("status:", res["status"], "obs:", res.get("obs"))
         bad = block_oracle(res)
